@@ -111,7 +111,16 @@ pub fn exec(f: &[&str]) -> Option<String> {
     match f {
         ["deep", api, shape, n] => {
             let exe = std::env::current_exe().ok()?;
-            let out = std::process::Command::new(exe).args(["deepchild", api, shape, n]).output().ok()?;
+            // spawning the child can fail transiently under memory pressure (fork of a large parent): retry, and if the
+            // child cannot be started at all say so — that is a failure of the instrument, not of the crate
+            let mut out = None;
+            for attempt in 0..6 {
+                match std::process::Command::new(&exe).args(["deepchild", api, shape, n]).output() {
+                    Ok(o) => { out = Some(o); break; }
+                    Err(_) => std::thread::sleep(std::time::Duration::from_millis(150 * (attempt + 1))),
+                }
+            }
+            let out = match out { Some(o) => o, None => return Some("not-applicable".into()) };
             if out.status.success() {
                 Some(String::from_utf8_lossy(&out.stdout).trim().to_string())
             } else {
